@@ -180,30 +180,53 @@ def m_half_transfer(f, case, viol):
 
 
 def m_crash_rename_over(f, case, viol):
-    """mechanism: on a side whose ids are paths a user renames a folder onto an existing empty folder (the rename replaces it, so
-    the id '<dst>' changes owner) and the process dies while that side's delete+rename event pair is being applied; on replay
-    the stale entry of the replaced folder is re-attached to the id now owned by the renamed folder and the peer's deletion of
-    the replaced folder is propagated to it.  Every differing path must be related to such a rename's destination."""
+    """mechanism: a user renames a folder (the paths - with path ids also the ids - of the folder and of everything below it
+    change; if the destination is an existing empty folder its id changes owner) and the process dies while the rename is
+    being applied: the rows of the folder and of its children are separate storage writes (no transaction), and on replay the
+    already-rewritten folder row makes the event a no-op, so children keep stale paths/ids, or a replaced folder's stale entry
+    is re-attached to the renamed one.  Crash runs only; every differing path must be related to such a rename's source or
+    destination."""
     if not case.get("crash"):
         return False
     flav = str(case.get("cfg", {}).get("flavour", ""))
-    made = {}
-    dsts = []
+    ends = []
     for u in user_ops(case):
         side, op = u[1], u[2]
-        if op == "mkdir":
-            made[(side, u[3])] = True
-        elif op in ("rmdir", "rmtree"):
-            made.pop((side, u[3]), None)
-        elif op == "rename_dir":
-            if len(flav) >= 2 and flav[side] == "p" and any(k[1] == u[4] for k in made):
-                dsts.append(u[4])
-            made.pop((side, u[3]), None)
-            made[(side, u[4])] = True
-    paths = _diff_paths(viol)
-    if not dsts or not paths:
+        if op == "rename_dir":
+            ends += [u[3], u[4]]
+    if not ends:
         return False
-    return all(any(_related(_unconf(p), q) for q in dsts) for p in paths)
+    if viol["cls"] == "nonquiescent":
+        return True
+    paths = _diff_paths(viol)
+    if not paths:
+        return False
+    return all(any(_related(_unconf(p), q) for q in ends) for p in paths)
+
+
+def m_crash_dup_entry(f, case, viol):
+    """mechanism (crash runs, path-id side): a user deletes file P and renames file Q onto the freed name P (then edits it);
+    the process dies between the storage writes for that delete+rename; after the restart two entries claim the id '<P>', the
+    engine's rename of the peer's Q onto P finds 'its own' copy of P in the way, deletes it "out of the way", and that delete is
+    then propagated back to the user's P.  Every lost version must have been written to P or Q."""
+    if not case.get("crash") or viol["cls"] != "content-lost":
+        return False
+    flav = str(case.get("cfg", {}).get("flavour", ""))
+    ops = user_ops(case)
+    pairs = []
+    for i, u in enumerate(ops):
+        if u[2] == "rename" and len(flav) >= 2 and flav[u[1]] == "p":
+            if any(v[2] == "delete" and v[1] == u[1] and v[3] == u[4] for v in ops[:i]) or \
+               any(x[0] == u[1] and x[1] == "create" and x[2] == u[4] for x in case.get("cfg", {}).get("prepop", ())):
+                pairs.append((u[3], u[4]))
+    if not pairs:
+        return False
+    lost = set(viol.get("lost") or [])
+    where = {}
+    for u in ops:
+        if u[2] in ("create", "write"):
+            where[u[4]] = u[3]
+    return bool(lost) and all(any(where.get(p) in pq for pq in pairs) for p in lost)
 
 
 def _abs_moves(case, kinds):
@@ -265,7 +288,7 @@ def m_moved_out_race(f, case, viol):
     return _paths_related_to_moves(viol, ok)
 
 
-MATCHERS = {"boundary_folder_move": m_boundary_folder_move, "moved_out_race": m_moved_out_race, "crash_rename_over": m_crash_rename_over, "event_exc": m_event_exc, "half_transfer": m_half_transfer, "history": m_history, "rename_race": m_rename_race, "dirdelete_race": m_dirdelete_race}
+MATCHERS = {"crash_dup_entry": m_crash_dup_entry, "boundary_folder_move": m_boundary_folder_move, "moved_out_race": m_moved_out_race, "crash_rename_over": m_crash_rename_over, "event_exc": m_event_exc, "half_transfer": m_half_transfer, "history": m_history, "rename_race": m_rename_race, "dirdelete_race": m_dirdelete_race}
 
 
 def match_one(f, case, viol):
